@@ -123,6 +123,25 @@ Theorem C04_handler_runs_to_completion : forall x a j k c v ok p',
 Proof. exact handler_runs_to_completion. Qed.
 Print Assumptions C04_handler_runs_to_completion.
 
+(* Many actors on ONE dispatcher (all spawned from one props): n mailboxes are the producers of
+   the dispatcher queue (capacity 9), each with at most one batch in flight.  For every n and
+   every schedule of posts, Schedule calls, consumer steps and other producer actions: at most
+   one task runs, on the consumer, by the handler that owns the channel; a Schedule call that
+   finds the queue full changes nothing (the poster stays blocked - nothing runs elsewhere). *)
+Theorem C04_dispatcher_one_at_a_time : forall n acts,
+  let x := di (drun (dinit n) acts) in
+  (running x <= 1)%nat /\
+  (forall j k c v ok, nth_error (pcs x) j = Some (PRun k c v ok) ->
+      j = 0%nat /\ chan_of (sh x) k = Some c) /\
+  ~ In PPanic (pcs x).
+Proof. exact dispatcher_one_at_a_time. Qed.
+Print Assumptions C04_dispatcher_one_at_a_time.
+
+Theorem C04_blocked_schedule_is_noop : forall y a,
+  snd (plain_step (sh (di y)) (OSend disp_chan a)) = EFull -> dstep y (DSched a) = y.
+Proof. exact blocked_schedule_is_noop. Qed.
+Print Assumptions C04_blocked_schedule_is_noop.
+
 (* The len(cases) == 0 branch of HandleOnce is never taken. *)
 Theorem C04_cases_never_empty : forall ops, ~ In ESleep (events ops).
 Proof. exact never_sleep. Qed.
@@ -185,6 +204,20 @@ Proof. vm_compute. reflexivity. Qed.
 Example C04_two_consumers_panic :
   nth_error (pcs (irun (init_i 2) (two_sched []))) 0 = Some PPanic.
 Proof. vm_compute. reflexivity. Qed.
+
+(* 12 actors, consumer held in a handler, a message for each of the other 11: nine batches fill
+   the dispatcher queue, two posters are blocked in Schedule, only the held handler runs; after
+   the release all 11 messages are handled by the consumer and every mailbox is idle again *)
+Example C04_example_many_actors :
+  let y := drun (dinit 12) (many_hold ++ many_posts) in
+  pcs (di y) = [PRun 2 2 5 true] /\ running (di y) = 1%nat /\
+  queue (sh (di y)) disp_chan = [1; 2; 3; 4; 5; 6; 7; 8; 9] /\
+  count_stat MQueued y = 9%nat /\ count_stat MWant y = 2%nat /\ dlog y = [] /\
+  let z := drun y many_drain in
+  dlog z = [(1, 101); (2, 102); (3, 103); (4, 104); (5, 105); (6, 106); (7, 107); (8, 108);
+            (9, 109); (10, 110); (11, 111)] /\
+  count_stat MIdle z = 12%nat /\ queue (sh (di z)) disp_chan = [].
+Proof. vm_compute. repeat split; reflexivity. Qed.
 
 (* a service machine: one item of every kind is executed by the consumer; with an overflow
    phase (1100 local events, 1050 posts, 1010 timers, 30 session messages, 300 requests against
